@@ -163,7 +163,24 @@ func c16Scenarios(tier string) []*Scenario {
 							if observed > 1 {
 								bad("handler-sees-at-most-one-request", "shape:handler-saw-several-requests:"+method, fmt.Sprintf("handler of non-client-streaming %s observed %d request messages", method, observed))
 							}
-							if rs.nMsgs >= 2 {
+							// a peer that hung up before the stream was closed ended the whole tunnel: the
+							// RPC then ends as any RPC of a dying tunnel does, whatever it had been sent
+							hungBeforeClose := false
+							if w.Vals["hangup"] != nil {
+								hs, cs := -1, 1<<60
+								for _, e := range w.EventsOf("env") {
+									if e.Op == "hangup" {
+										hs = e.Step
+									}
+								}
+								for _, f := range w.Tap.Frames {
+									if m, ok := f.Msg.(*tunnelpb.ServerToClient); ok && m.StreamId == 1 && m.GetCloseStream() != nil {
+										cs = f.Step
+									}
+								}
+								hungBeforeClose = hs >= 0 && hs < cs
+							}
+							if rs.nMsgs >= 2 && !hungBeforeClose {
 								if observed > 0 {
 									bad("handler-sees-at-most-one-request", "shape:handler-invoked-with-request-despite-several:"+method, fmt.Sprintf("%d requests were sent but the handler still observed one", rs.nMsgs))
 								}
@@ -174,7 +191,7 @@ func c16Scenarios(tier string) []*Scenario {
 									bad("several-requests-fail-invalid-argument", "shape:no-close", "no close frame")
 								}
 							}
-							if rs.nMsgs == 1 && rs.half && len(cl) == 1 && codes.Code(cl[0].GetStatus().GetCode()) != codes.OK && trailingPartial(rs) == false {
+							if rs.nMsgs == 1 && rs.half && !hungBeforeClose && len(cl) == 1 && codes.Code(cl[0].GetStatus().GetCode()) != codes.OK && trailingPartial(rs) == false {
 								bad("single-request-accepted", "shape:single-request-rejected", fmt.Sprintf("one request + half-close on %s closed with %s(%s)", method, codes.Code(cl[0].GetStatus().GetCode()), cl[0].GetStatus().GetMessage()))
 							}
 						} else if rs.half && observed != rs.nMsgs && len(cl) == 1 && codes.Code(cl[0].GetStatus().GetCode()) == codes.OK {
